@@ -546,7 +546,7 @@ class Translator:
                 return st
             res = set()
             callers = self.callers.get(fname, [])
-            if not callers or fname in self.addr_taken:
+            if not callers:
                 return None
             for cf, args in callers:
                 if idx >= len(args):
@@ -597,6 +597,19 @@ class Translator:
                 return {('site', s['id'])}
         # load / call / inttoptr ...: fall back on the static pointee type
         st = self.struct_ptr_sig(ptr_ty)
+        if st is None and op == 'load':
+            # `load i8*, i8** (bitcast T*** %p to i8**)`: the slot's declared type says what the value points to
+            mm = re.match(r'load (?:atomic )?(?:volatile )?[^,]+, \S+ (%[\w.$-]+)', d)
+            if mm:
+                pd = fn.defs.get(mm.group(1), '')
+                m2 = re.match(r'bitcast (.*?) (%[\w.$-]+) to ', pd)
+                if m2:
+                    try:
+                        t0, _ = self.T.parse(m2.group(1))
+                        if t0[0] == 'ptr':
+                            st = self.struct_ptr_sig(t0[1])
+                    except IRError:
+                        pass
         return st
 
     def struct_ptr_sig(self, pty):
@@ -605,6 +618,10 @@ class Translator:
             r = self.T.resolve(p) if p[0] != 'named' or p[1] in self.T.named else ('opaque',)
             if p[0] == 'named' and r[0] == 'lit':
                 return {(p[1], 0)}
+            if r[0] == 'ptr':
+                # pointer to a pointer-typed slot of type T*: points into a location whose leaf type is T*.
+                # (not for iN*: clang puns pointer slots to i64* for atomic accesses)
+                return {('arr:' + tstr(p), 0)}
         return None
 
     def sig_of_expr(self, fname, op, inner, seen, depth):
@@ -630,12 +647,9 @@ class Translator:
         if sn.startswith('arr:') or sn.startswith('lit:'):
             # scalar-element pointer arithmetic: keep the base's signature when the base is exact
             base = self.addr_sig(fname, pt, pv, seen, depth + 1)
-            if base is not None and base and all(x[0] in ('obj', 'site', 'priv') for x in base):
-                return base
-            res = {(sn, so)}
             if base is not None:
-                res |= {b for b in base if b[0] in ('obj', 'site', 'priv')}
-            return res
+                return base      # pointer arithmetic inside an array keeps pointing into the same array
+            return {(sn, so)}
         first_const = re.fullmatch(r'-?\d+', idxs[0][1].strip()) if idxs else None
         base = self.addr_sig(fname, pt, pv, seen, depth + 1)
         if base is not None and base and all(x[0] in ('obj', 'site', 'priv') for x in base):
@@ -645,12 +659,15 @@ class Translator:
     def build_callgraph(self, funcs):
         self.callers = {}
         self.addr_taken = set()
+        self.indirect_calls = []
         for f in funcs:
             for b in self.m.funcs[f].blocks:
                 for ins in b.insts:
                     m = re.match(r'(?:%[\w.$-]+ = )?(?:tail |notail |musttail )?call (.*)$', ins)
                     direct = None
                     if m:
+                        body0 = re.sub(r'bitcast \(([^()]|\([^()]*\))*?(@"[^"]+"|@[\w.$-]+) to [^()]*(\([^()]*\))?[^()]*\)\s*\(', lambda k: k.group(2) + '(', m.group(1), count=1)
+                        m = re.match(r'(.*)$', body0)
                         mm = re.search(r'@("[^"]+"|[\w.$-]+)\s*\(', m.group(1))
                         if mm and not m.group(1).lstrip().startswith('asm') and ' asm ' not in m.group(1)[:mm.start()]:
                             direct = mm.group(1).strip('"')
@@ -666,12 +683,27 @@ class Translator:
                                 for g in re.findall(r'@("[^"]+"|[\w.$-]+)', v):
                                     self.addr_taken.add(g.strip('"'))
                             continue
+                        mi = re.search(r'(%[\w.$-]+)\s*\(', m.group(1))
+                        if mi and not m.group(1).lstrip().startswith('asm') and ' asm ' not in m.group(1)[:mi.start()]:
+                            k = m.group(1).index('(', mi.end() - 1)
+                            j = match_close(m.group(1), k, '(', ')')
+                            args = []
+                            for a in split_top(m.group(1)[k + 1:j]):
+                                t, v, _ = self.m.parse_tv(a)
+                                args.append((t, v))
+                            self.indirect_calls.append((f, args))
                     for g in re.findall(r'@("[^"]+"|[\w.$-]+)', ins):
                         self.addr_taken.add(g.strip('"'))
         for g, info in self.m.globals.items():
             if info['init']:
                 for h in re.findall(r'@("[^"]+"|[\w.$-]+)', info['init']):
                     self.addr_taken.add(h.strip('"'))
+        for f in funcs:
+            if f in self.addr_taken:
+                ptys = [t for t, _ in self.m.funcs[f].params]
+                for cf, args in self.indirect_calls:
+                    if len(args) == len(ptys) and all(a[0] == b for a, b in zip(args, ptys)):
+                        self.callers.setdefault(f, []).append((cf, args))
 
     def site_set(self, fname, ptr_ty, opnd, kind='rw'):
         """candidate-set id for an access through `opnd`"""
@@ -707,7 +739,24 @@ class Translator:
             if not tysigs:
                 continue
             if o.ty == ('int', 8):
-                out += [(o, c) for c in range(o.ncells)]
+                # untyped object: if it is (an array of) the struct named by the signature, the field sits at off + k*sizeof
+                hit = set()
+                for (n, off) in tysigs:
+                    if n.startswith('arr:') or n.startswith('lit:') or n not in self.T.named or self.T.resolve(('named', n))[0] != 'lit':
+                        hit = set(range(o.ncells))
+                        break
+                    ssz = self.T.size_align(('named', n))[0]
+                    if self.has_flex(('named', n)) or ssz == 0:
+                        hit |= {c for c in range(o.ncells) if c * 8 >= off - off % 8} if off >= ssz else {off // 8}
+                        if off >= ssz:
+                            continue
+                        # flexible tail: cells beyond the fixed part may be tail elements reached through other signatures
+                        continue
+                    k = 0
+                    while off + k * ssz < o.size:
+                        hit.add((off + k * ssz) // 8)
+                        k += 1
+                out += [(o, c) for c in sorted(hit) if c < o.ncells]
                 continue
             if o.sigs is None:
                 self.compute_sigs(o)
@@ -769,6 +818,19 @@ def classify_cells(tr, funcs):
                 cls[cell] = ('excl', next(iter(w | r)))
             else:
                 cls[cell] = 'shared'
+    # declared ownership (spec 'excl': [[object-name-regex, cells|null, [tid of 1st match, tid of 2nd match, ...]], ...]).
+    # It is a speculation checked at run time: an access by any other thread trips an 'encoding:' assertion (no verdict).
+    tr.guarded = set()
+    for rx, cells, tids in tr.spec.get('excl', []):
+        k = 0
+        for o in tr.objs:
+            if re.search(rx, o.name):
+                if k < len(tids) and tids[k]:
+                    for c in (cells if cells is not None else range(o.ncells)):
+                        if c < o.ncells and cls.get((o.oid, c)) == 'shared':
+                            cls[(o.oid, c)] = ('excl', tids[k])
+                            tr.guarded.add((o.oid, c))
+                k += 1
     tr.cell_class = cls
     tr.setup_written = setup_written
     tr.thread_reach = reach
